@@ -83,14 +83,18 @@ var vfKeysOutside = []string{"/x/k0", "/v", "/x/w/k0"}
 var vfVals = []string{"a", "b", "c", ""}
 
 type vfHistory struct {
-	Steps     []vfStep
-	PullMs    int
-	LagMs     [4]int // per adapter consumer lag
-	Fault     string // none | restart | cut | cutcompact
-	states    []map[string]string
-	nSameVal  int
-	nRecreate int
-	nTxn      int
+	Steps        []vfStep
+	PullMs       int
+	LagMs        [4]int // per adapter consumer lag
+	Fault        string // none | restart | cut | cutcompact
+	ShortTimeout bool   // the syncing member has cluster-request-timeout 500ms instead of 10s
+	OutageMs     int
+	TailBurst    int
+	k0AtFault    bool
+	states       []map[string]string
+	nSameVal     int
+	nRecreate    int
+	nTxn         int
 }
 
 func vfCopyState(m map[string]string) map[string]string {
@@ -206,7 +210,7 @@ func vfGenHistory(rt *rapid.T) *vfHistory {
 	h := &vfHistory{}
 	h.PullMs = rapid.SampledFrom([]int{100, 150, 200, 300}).Draw(rt, "pullMs")
 	for i := range h.LagMs {
-		h.LagMs[i] = rapid.SampledFrom([]int{0, 0, 0, 15, 40}).Draw(rt, "lagMs")
+		h.LagMs[i] = rapid.SampledFrom([]int{0, 0, 0, 15, 40, 100}).Draw(rt, "lagMs")
 	}
 	// (rapid favours the front of the list: the fault kinds come first so that they stay well populated)
 	h.Fault = rapid.SampledFrom([]string{"cutcompact", "restart", "cut", "none", "none", "none", "none", "none"}).Draw(rt, "fault")
@@ -215,9 +219,29 @@ func vfGenHistory(rt *rapid.T) *vfHistory {
 	cur = vfGenWrites(rt, h, cur, rapid.IntRange(0, 5).Draw(rt, "nPre"), "pre.")
 	h.Steps = append(h.Steps, vfStep{Op: "sync"})
 	cur = vfGenWrites(rt, h, cur, rapid.IntRange(0, 18).Draw(rt, "nA"), "a.")
+	// the syncing member: request timeout 10 s, or 500 ms (then a pull issued during an outage FAILS
+	// instead of waiting for the server to come back)
+	if h.Fault != "none" {
+		h.ShortTimeout = rapid.IntRange(0, 2).Draw(rt, "shortReqTimeout") != 0
+	} else {
+		h.ShortTimeout = rapid.IntRange(0, 2).Draw(rt, "shortReqTimeout") == 0
+	}
+	if h.Fault != "none" && rapid.IntRange(0, 3).Draw(rt, "k0Exists") != 0 {
+		// the watched single key mostly exists when the fault strikes
+		if _, ok := cur["/w/k0"]; !ok {
+			v := rapid.SampledFrom(vfVals).Draw(rt, "k0val")
+			cur = vfCopyState(cur)
+			cur["/w/k0"] = v
+			h.states = append(h.states, cur)
+			h.Steps = append(h.Steps, vfStep{Op: "write", KVs: []vfKV{{"/w/k0", &v}}, state: len(h.states) - 1})
+		}
+	}
+	_, h.k0AtFault = cur["/w/k0"]
 	switch h.Fault {
 	case "restart":
-		h.Steps = append(h.Steps, vfStep{Op: "stop"}, vfStep{Op: "start"})
+		// the server is down for the time the restart takes (about a second) plus this pause
+		h.OutageMs = rapid.SampledFrom([]int{0, 600, 1200}).Draw(rt, "outageMs")
+		h.Steps = append(h.Steps, vfStep{Op: "stop"}, vfStep{Op: "pause", PauseMs: h.OutageMs}, vfStep{Op: "start"})
 	case "cut", "cutcompact":
 		h.Steps = append(h.Steps, vfStep{Op: "cut"})
 		minCut := 0
@@ -228,17 +252,36 @@ func vfGenHistory(rt *rapid.T) *vfHistory {
 		if h.Fault == "cutcompact" {
 			h.Steps = append(h.Steps, vfStep{Op: "compact"})
 		}
-		h.Steps = append(h.Steps, vfStep{Op: "pause", PauseMs: rapid.SampledFrom([]int{0, 50, 150, 400}).Draw(rt, "cutMs")})
+		h.OutageMs = rapid.SampledFrom([]int{0, 150, 700, 1300}).Draw(rt, "cutMs")
+		h.Steps = append(h.Steps, vfStep{Op: "pause", PauseMs: h.OutageMs})
 		h.Steps = append(h.Steps, vfStep{Op: "heal"})
 	}
 	cur = vfGenWrites(rt, h, cur, rapid.IntRange(0, 18).Draw(rt, "nB"), "b.")
-	_ = cur
+	// tail burst: more back-to-back changes of the watched single key than a syncer channel can
+	// buffer (10), then silence; a lagging consumer must still get the final content
+	if rapid.IntRange(0, 2).Draw(rt, "tailBurst") == 0 {
+		h.TailBurst = rapid.IntRange(14, 24).Draw(rt, "tailBurstLen")
+		for i := 0; i < h.TailBurst; i++ {
+			v := vfVals[i%3]
+			if old, ok := cur["/w/k0"]; ok && old == v {
+				v = vfVals[(i+1)%3]
+			}
+			cur = vfCopyState(cur)
+			cur["/w/k0"] = v
+			h.states = append(h.states, cur)
+			h.Steps = append(h.Steps, vfStep{Op: "write", KVs: []vfKV{{"/w/k0", &v}}, state: len(h.states) - 1})
+		}
+	}
 	return h
 }
 
 func (h *vfHistory) String() string {
 	var sb strings.Builder
-	fmt.Fprintf(&sb, "pullInterval=%dms lag=%v fault=%s\n", h.PullMs, h.LagMs, h.Fault)
+	rto := "10s"
+	if h.ShortTimeout {
+		rto = "500ms"
+	}
+	fmt.Fprintf(&sb, "pullInterval=%dms lag=%v fault=%s member-request-timeout=%s\n", h.PullMs, h.LagMs, h.Fault, rto)
 	for i, s := range h.Steps {
 		if s.Op == "write" {
 			fmt.Fprintf(&sb, "  %2d: %s   => S%d\n", i, s.String(), s.state)
@@ -373,7 +416,8 @@ func TestVerifC19Syncer(t *testing.T) {
 	vf := vfBegin(t, "C19")
 	defer vf.End()
 	bed := vfStartBed(t, true)
-	m := bed.vfAddSecondary(t, "vf-sec-sync", true)
+	mLong := bed.vfAddSecondary(t, "vf-sec-sync", true)
+	mShort := bed.vfAddSecondaryTimeout(t, "vf-sec-sync-short", true, "500ms")
 	raw := bed.raw
 
 	// Writes are retried only right after a server restart, while the writer's client is still
@@ -430,6 +474,10 @@ func TestVerifC19Syncer(t *testing.T) {
 			rt.Fatalf("VF-INCONCLUSIVE test bed broken earlier: %s", *broken)
 		}
 		h := vfGenHistory(rt)
+		m := mLong
+		if h.ShortTimeout {
+			m = mShort
+		}
 		base := fmt.Sprintf("/vf19/%d", atomic.AddInt64(&vfC19Case, 1))
 		pull := time.Duration(h.PullMs) * time.Millisecond
 
@@ -542,6 +590,13 @@ func TestVerifC19Syncer(t *testing.T) {
 					return r, bad
 				})
 			case "stop":
+				// etcd 3.5.4 can crash the whole process (nil bbolt transaction) when a range request
+				// is in flight while the embedded server shuts down: the members' traffic is cut off
+				// a moment before the stop (for them it is the same outage) and let in again after
+				// the restart
+				bed.relay.Cut()
+				healed = false
+				time.Sleep(50 * time.Millisecond)
 				bed.vfStopServer()
 				serverUp = false
 				sawFault = true
@@ -552,6 +607,8 @@ func TestVerifC19Syncer(t *testing.T) {
 				}
 				serverUp = true
 				justRestarted = true
+				bed.relay.Heal()
+				healed = true
 			case "cut":
 				bed.relay.Cut()
 				healed = false
@@ -624,6 +681,14 @@ func TestVerifC19Syncer(t *testing.T) {
 
 		// ---- classification
 		vf.Class("fault=" + h.Fault)
+		if h.ShortTimeout {
+			vf.Class("member-request-timeout=500ms")
+			if h.Fault != "none" && h.k0AtFault && (h.Fault == "restart" || h.OutageMs >= 700) {
+				vf.Class("single-key-exists-while-pulls-fail")
+			}
+		} else {
+			vf.Class("member-request-timeout=10s")
+		}
 		nSnaps := 0
 		for _, c := range cons {
 			nSnaps += len(c.snaps)
@@ -647,6 +712,14 @@ func TestVerifC19Syncer(t *testing.T) {
 		}
 		if h.nSameVal > 0 {
 			vf.Class("has-same-value-put")
+		}
+		if h.TailBurst > 0 {
+			for i := range cons {
+				if h.LagMs[i] >= 40 {
+					vf.Class("tail-burst>10-changes-with-lagging-consumer")
+					break
+				}
+			}
 		}
 		if h.nRecreate > 0 {
 			vf.Class("has-delete-then-recreate")
